@@ -16,6 +16,7 @@ pub mod c18;
 pub mod c19;
 pub mod c20;
 pub mod rootgone;
+pub mod walkby;
 
 use crate::cfg::{gen_cfg, Cfg};
 use crate::engine::{self, Spec};
@@ -179,6 +180,7 @@ pub fn dispatch(a: &Args) -> Option<(Acc, RunMeta)> {
             acc.merge(engine::run(&spec(a, "c05-untyped", a.n(2200, 25000), (10, 25), Domain::untyped(), cfg_any, true, None)));
             acc.merge(engine::run(&spec(a, "c05-ovl", a.n(1000, 12000), (10, 25), Domain::untyped(), cfg_overlay_multi, true, None)));
             acc.merge(rootgone::run(a));
+            acc.merge(walkby::run(a));
             Some((acc, meta(a, "snapshots after every step of typed and untyped histories on all configurations; model-free cross-observer rules (exists/metadata/is_file/is_dir/read_dir/open_file/walk_dir) on every probed and discovered path; distinct = distinct observable states", ENGINE_ASSUMPTIONS)))
         }
         "C08" => {
